@@ -251,119 +251,184 @@ func checkC07(tier string) *Report {
 		}
 	}
 	x.RunOn(worlds)
-	c07Callbacks(rep, w0)
+	c07Callbacks(rep, w0, full)
 	c07RefundPaths(rep, w0)
 	rep.Guard(rep.Outcomes["reference-success"] > 50 && rep.Outcomes["reference-error-ack"] > 50, "outcome classes missing: %v", rep.Outcomes)
-	rep.Guard(rep.Outcomes["callback-passthrough-ok"] >= 11, "callback pass-through vacuous: %v", rep.Outcomes)
+	rep.Guard(rep.Outcomes["callback-passthrough-ok"] >= 1000, "callback pass-through vacuous: %v", rep.Outcomes)
 	return rep
 }
 
 // ---------------------------------------------------------------------------- other callbacks
 
-type recIBCModule struct{ calls *[]string }
+// recorder shared by the two recording stand-ins: what they were called with, what they answer (mode 0: errors and
+// "false"; mode 1: nil errors and "true"; mode 2: nil errors, empty strings), and an event emitted on the caller's context
+type recState struct {
+	calls []string
+	mode  int
+}
 
-func (r recIBCModule) note(name string, args ...any) { *r.calls = append(*r.calls, name+fmt.Sprint(args...)) }
+func (s *recState) note(ctx sdk.Context, name string, args ...any) {
+	s.calls = append(s.calls, name+fmt.Sprint(args...))
+	ctx.EventManager().EmitEvent(sdk.NewEvent("verif_rec", sdk.NewAttribute("call", name), sdk.NewAttribute("n", fmt.Sprint(len(s.calls)))))
+}
+func (s *recState) err(tag string) error {
+	if s.mode == 0 {
+		return fmt.Errorf("ret-err-%s", tag)
+	}
+	return nil
+}
+func (s *recState) str(tag string) string {
+	if s.mode == 2 {
+		return ""
+	}
+	return fmt.Sprintf("ret-%s-%d", tag, s.mode)
+}
+
+type recIBCModule struct{ s *recState }
 
 func (r recIBCModule) OnChanOpenInit(ctx sdk.Context, order channeltypes.Order, hops []string, portID, channelID string, c *capabilitytypes.Capability, cp channeltypes.Counterparty, version string) (string, error) {
-	r.note("OnChanOpenInit", order, hops, portID, channelID, c, cp, version)
-	return "ret-version-init", fmt.Errorf("ret-err-init")
+	r.s.note(ctx, "OnChanOpenInit", order, hops, portID, channelID, c, cp, version)
+	return r.s.str("version-init"), r.s.err("init")
 }
 func (r recIBCModule) OnChanOpenTry(ctx sdk.Context, order channeltypes.Order, hops []string, portID, channelID string, c *capabilitytypes.Capability, cp channeltypes.Counterparty, cpVersion string) (string, error) {
-	r.note("OnChanOpenTry", order, hops, portID, channelID, c, cp, cpVersion)
-	return "ret-version-try", fmt.Errorf("ret-err-try")
+	r.s.note(ctx, "OnChanOpenTry", order, hops, portID, channelID, c, cp, cpVersion)
+	return r.s.str("version-try"), r.s.err("try")
 }
 func (r recIBCModule) OnChanOpenAck(ctx sdk.Context, portID, channelID, cpChannelID, cpVersion string) error {
-	r.note("OnChanOpenAck", portID, channelID, cpChannelID, cpVersion)
-	return fmt.Errorf("ret-err-ack")
+	r.s.note(ctx, "OnChanOpenAck", portID, channelID, cpChannelID, cpVersion)
+	return r.s.err("ack")
 }
 func (r recIBCModule) OnChanOpenConfirm(ctx sdk.Context, portID, channelID string) error {
-	r.note("OnChanOpenConfirm", portID, channelID)
-	return fmt.Errorf("ret-err-confirm")
+	r.s.note(ctx, "OnChanOpenConfirm", portID, channelID)
+	return r.s.err("confirm")
 }
 func (r recIBCModule) OnChanCloseInit(ctx sdk.Context, portID, channelID string) error {
-	r.note("OnChanCloseInit", portID, channelID)
-	return fmt.Errorf("ret-err-closeinit")
+	r.s.note(ctx, "OnChanCloseInit", portID, channelID)
+	return r.s.err("closeinit")
 }
 func (r recIBCModule) OnChanCloseConfirm(ctx sdk.Context, portID, channelID string) error {
-	r.note("OnChanCloseConfirm", portID, channelID)
-	return fmt.Errorf("ret-err-closeconfirm")
+	r.s.note(ctx, "OnChanCloseConfirm", portID, channelID)
+	return r.s.err("closeconfirm")
 }
 func (r recIBCModule) OnRecvPacket(ctx sdk.Context, p channeltypes.Packet, relayer sdk.AccAddress) ibcexported.Acknowledgement {
-	r.note("OnRecvPacket", p, relayer)
+	r.s.note(ctx, "OnRecvPacket", p, relayer)
 	return channeltypes.NewResultAcknowledgement([]byte("ret-ack"))
 }
 func (r recIBCModule) OnAcknowledgementPacket(ctx sdk.Context, p channeltypes.Packet, ack []byte, relayer sdk.AccAddress) error {
-	r.note("OnAcknowledgementPacket", p, ack, relayer)
-	return fmt.Errorf("ret-err-onack")
+	r.s.note(ctx, "OnAcknowledgementPacket", p, ack, relayer)
+	return r.s.err("onack")
 }
 func (r recIBCModule) OnTimeoutPacket(ctx sdk.Context, p channeltypes.Packet, relayer sdk.AccAddress) error {
-	r.note("OnTimeoutPacket", p, relayer)
-	return fmt.Errorf("ret-err-timeout")
+	r.s.note(ctx, "OnTimeoutPacket", p, relayer)
+	return r.s.err("timeout")
 }
 
-type recICS4 struct{ calls *[]string }
+type recICS4 struct{ s *recState }
 
 func (r recICS4) SendPacket(ctx sdk.Context, chanCap *capabilitytypes.Capability, sourcePort, sourceChannel string, timeoutHeight clienttypes.Height, timeoutTimestamp uint64, data []byte) (uint64, error) {
-	*r.calls = append(*r.calls, "SendPacket"+fmt.Sprint(chanCap, sourcePort, sourceChannel, timeoutHeight, timeoutTimestamp, data))
-	return 4242, fmt.Errorf("ret-err-send")
+	r.s.note(ctx, "SendPacket", chanCap, sourcePort, sourceChannel, timeoutHeight, timeoutTimestamp, data)
+	return 4242 + uint64(r.s.mode), r.s.err("send")
 }
 func (r recICS4) WriteAcknowledgement(ctx sdk.Context, chanCap *capabilitytypes.Capability, packet ibcexported.PacketI, ack ibcexported.Acknowledgement) error {
-	*r.calls = append(*r.calls, "WriteAcknowledgement"+fmt.Sprint(chanCap, packet, ack))
-	return fmt.Errorf("ret-err-writeack")
+	r.s.note(ctx, "WriteAcknowledgement", chanCap, packet, ack.Acknowledgement(), ack.Success())
+	return r.s.err("writeack")
 }
 func (r recICS4) GetAppVersion(ctx sdk.Context, portID, channelID string) (string, bool) {
-	*r.calls = append(*r.calls, "GetAppVersion"+fmt.Sprint(portID, channelID))
-	return "ret-app-version", true
+	r.s.note(ctx, "GetAppVersion", portID, channelID)
+	return r.s.str("app-version"), r.s.mode != 0
 }
 
-// c07Callbacks: enumerate the method sets of porttypes.IBCModule and porttypes.ICS4Wrapper by reflection;
-// call each (except OnRecvPacket) on the real middleware and on the recording inner directly with the
-// same arguments; the inner must have been called exactly once with exactly those arguments and the
-// results must be returned unchanged.
-func c07Callbacks(rep *Report, w *World) {
-	var got, want []string
-	innerA, ics4A := recIBCModule{&got}, recICS4{&got}
-	innerB, ics4B := recIBCModule{&want}, recICS4{&want}
-	mw := entrypoint.NewIBCMiddleware(innerA, ics4A, w.App.OrbiterKeeper.Adapter())
+// c07Callbacks: enumerate the method sets of porttypes.IBCModule and porttypes.ICS4Wrapper by reflection; for each
+// method except OnRecvPacket, the FULL cross product of small per-type argument menus (packets addressed to the
+// orbiter / to somebody else / sent by the orbiter account / undecodable / empty; result, error, undecodable and empty
+// acknowledgements; port, channel and version strings; ...) times three answers of the wrapped application (error /
+// success / success with empty strings) is called on the real middleware and on the recording stand-in directly.
+// Required: the stand-in was called exactly once with exactly those arguments, the results come back unchanged, the
+// events on the caller's context are exactly the stand-in's, and no store was written.
+func c07Callbacks(rep *Report, w *World, full bool) {
+	sa, sb := &recState{}, &recState{}
+	mw := entrypoint.NewIBCMiddleware(recIBCModule{sa}, recICS4{sa}, w.App.OrbiterKeeper.Adapter())
 	ifaces := []reflect.Type{reflect.TypeOf((*porttypes.IBCModule)(nil)).Elem(), reflect.TypeOf((*porttypes.ICS4Wrapper)(nil)).Elem()}
-	direct := []reflect.Value{reflect.ValueOf(innerB), reflect.ValueOf(ics4B)}
+	direct := []reflect.Value{reflect.ValueOf(recIBCModule{sb}), reflect.ValueOf(recICS4{sb})}
 	mwv := reflect.ValueOf(mw)
-	ctx := Branch(w.Ctx)
-	pkt := NewPkt("channel-0", denomUSDC, "5", w.Orb.String(), Memo(w.FwdInternal(w.Bob), nil)).Packet()
+	base := Branch(w.Ctx)
+	ctxT := reflect.TypeOf(base)
+	mkPkt := func(data []byte, srcPort, srcCh, dstPort, dstCh string) channeltypes.Packet {
+		return channeltypes.NewPacket(data, 3, srcPort, srcCh, dstPort, dstCh, clienttypes.NewHeight(1, 1000), 7)
+	}
+	ftpd := func(sender, receiver, memo string) []byte {
+		return transfertypes.FungibleTokenPacketData{Denom: denomUSDC, Amount: "5", Sender: sender, Receiver: receiver, Memo: memo}.GetBytes()
+	}
+	orbMemo := Memo(w.FwdInternal(w.Bob), nil)
+	pkts := []channeltypes.Packet{
+		NewPkt("channel-0", denomUSDC, "5", w.Orb.String(), orbMemo).Packet(),                                   // incoming, orbiter-addressed
+		mkPkt(ftpd(w.Alice.String(), defaultSender, ""), "transfer", "channel-0", "transfer", "channel-7"),         // sent by alice from Noble
+		mkPkt(ftpd(w.Orb.String(), defaultSender, orbMemo), "transfer", "channel-0", "transfer", "channel-7"),    // sent by the orbiter account, orbiter memo
+		mkPkt(ftpd(defaultSender, w.Orb.String(), orbMemo), "transfer", "channel-0", "transfer", "channel-7"),    // orbiter as receiver of an OUTGOING packet
+		mkPkt([]byte("not json"), "transfer", "channel-1", "transfer", "channel-9"),
+		mkPkt(nil, "icahost", "channel-3", "other", strings.Repeat("c", 40)),
+	}
+	if !full {
+		pkts = pkts[:5]
+	}
+	acksB := [][]byte{channeltypes.NewResultAcknowledgement([]byte{1}).Acknowledgement(), channeltypes.NewErrorAcknowledgement(fmt.Errorf("boom")).Acknowledgement(), []byte("garbage"), {}, []byte(`{"result":"AQ==","error":"x"}`)}
+	acksI := []ibcexported.Acknowledgement{channeltypes.NewResultAcknowledgement([]byte{1}), channeltypes.NewErrorAcknowledgement(fmt.Errorf("boom")), channeltypes.NewResultAcknowledgement(nil), channeltypes.Acknowledgement{}}
+	strs := []string{"transfer", "", "channel-0", w.Orb.String(), "ics20-1"}
+	if full {
+		strs = append(strs, strings.Repeat("v", 200), "orbiter")
+	}
 	capb := capabilitytypes.NewCapability(7)
-	argFor := func(t reflect.Type, pos int, variant int) reflect.Value {
-		switch {
-		case t == reflect.TypeOf(ctx):
-			return reflect.ValueOf(ctx)
-		case t == reflect.TypeOf(pkt):
-			return reflect.ValueOf(pkt)
-		case t == reflect.TypeOf((*ibcexported.PacketI)(nil)).Elem():
-			return reflect.ValueOf(pkt)
-		case t == reflect.TypeOf((*ibcexported.Acknowledgement)(nil)).Elem():
-			return reflect.ValueOf(channeltypes.NewResultAcknowledgement([]byte{byte(variant)}))
-		case t == reflect.TypeOf(capb):
-			return reflect.ValueOf(capb)
-		case t == reflect.TypeOf(sdk.AccAddress{}):
-			return reflect.ValueOf(sdk.AccAddress(bytes.Repeat([]byte{byte(pos + variant)}, 20)))
-		case t == reflect.TypeOf(channeltypes.ORDERED):
-			return reflect.ValueOf(channeltypes.Order(1 + variant%2))
-		case t == reflect.TypeOf(channeltypes.Counterparty{}):
-			return reflect.ValueOf(channeltypes.NewCounterparty("transfer", fmt.Sprintf("channel-%d", variant)))
-		case t == reflect.TypeOf(clienttypes.Height{}):
-			return reflect.ValueOf(clienttypes.NewHeight(uint64(variant), 99))
-		case t.Kind() == reflect.String:
-			vals := []string{"transfer", "", fmt.Sprintf("arg%d-%d", pos, variant), w.Orb.String()}
-			return reflect.ValueOf(vals[(pos+variant)%len(vals)])
-		case t.Kind() == reflect.Uint64:
-			return reflect.ValueOf(uint64(1000 + variant))
-		case t.Kind() == reflect.Slice && t.Elem().Kind() == reflect.Uint8:
-			return reflect.ValueOf([]byte(fmt.Sprintf(`{"receiver":"%s","v":%d}`, w.Orb.String(), variant)))
-		case t.Kind() == reflect.Slice && t.Elem().Kind() == reflect.String:
-			return reflect.ValueOf([]string{"connection-0", fmt.Sprint(variant)})
+	menu := func(t reflect.Type) []reflect.Value {
+		var out []reflect.Value
+		add := func(vs ...any) {
+			for _, v := range vs {
+				out = append(out, reflect.ValueOf(v))
+			}
 		}
-		return reflect.Zero(t)
+		switch {
+		case t == reflect.TypeOf(pkts[0]):
+			for _, p := range pkts {
+				add(p)
+			}
+		case t == reflect.TypeOf((*ibcexported.PacketI)(nil)).Elem():
+			for _, p := range pkts {
+				out = append(out, reflect.ValueOf(p).Convert(t))
+			}
+		case t == reflect.TypeOf((*ibcexported.Acknowledgement)(nil)).Elem():
+			for _, a := range acksI {
+				out = append(out, reflect.ValueOf(a).Convert(t))
+			}
+		case t == reflect.TypeOf(capb):
+			out = append(out, reflect.ValueOf(capb), reflect.Zero(t))
+		case t == reflect.TypeOf(sdk.AccAddress{}):
+			add(sdk.AccAddress(bytes.Repeat([]byte{9}, 20)), sdk.AccAddress(nil), w.Orb)
+		case t == reflect.TypeOf(channeltypes.ORDERED):
+			add(channeltypes.UNORDERED, channeltypes.ORDERED)
+		case t == reflect.TypeOf(channeltypes.Counterparty{}):
+			add(channeltypes.NewCounterparty("transfer", "channel-7"), channeltypes.NewCounterparty("", ""))
+		case t == reflect.TypeOf(clienttypes.Height{}):
+			add(clienttypes.NewHeight(0, 0), clienttypes.NewHeight(1, 99))
+		case t.Kind() == reflect.String:
+			for _, v := range strs {
+				add(v)
+			}
+		case t.Kind() == reflect.Uint64:
+			add(uint64(0), uint64(1000), ^uint64(0))
+		case t.Kind() == reflect.Slice && t.Elem().Kind() == reflect.Uint8:
+			for _, a := range acksB {
+				add(a)
+			}
+			add(ftpd(w.Orb.String(), defaultSender, orbMemo), ftpd(defaultSender, w.Orb.String(), orbMemo))
+		case t.Kind() == reflect.Slice && t.Elem().Kind() == reflect.String:
+			add([]string{"connection-0"}, []string{})
+		default:
+			out = append(out, reflect.Zero(t))
+		}
+		return out
 	}
 	var covered []string
+	sizes := map[string]int{}
+	before := w.StateKey(base)
 	for ii, it := range ifaces {
 		for i := 0; i < it.NumMethod(); i++ {
 			m := it.Method(i)
@@ -377,32 +442,82 @@ func c07Callbacks(rep *Report, w *World) {
 				rep.Violate(Violation{Kind: "callback-missing", Sig: m.Name, Replay: mustJSON(m.Name), What: "middleware does not expose " + m.Name})
 				continue
 			}
-			for variant := 0; variant < 4; variant++ {
-				var args []reflect.Value
-				for a := 0; a < m.Type.NumIn(); a++ {
-					args = append(args, argFor(m.Type.In(a), a, variant))
+			var menus [][]reflect.Value
+			total := 1
+			for a := 0; a < m.Type.NumIn(); a++ {
+				if m.Type.In(a) == ctxT {
+					menus = append(menus, nil)
+					continue
 				}
-				got, want = got[:0], want[:0]
-				ra := mm.Call(args)
-				rb := dm.Call(args)
-				rep.Count("evaluations", 1)
-				same := len(got) == 1 && len(want) == 1 && got[0] == want[0]
-				for k := range ra {
-					if fmt.Sprint(ra[k].Interface()) != fmt.Sprint(rb[k].Interface()) {
-						same = false
+				mn := menu(m.Type.In(a))
+				menus = append(menus, mn)
+				total *= len(mn)
+			}
+			sizes[m.Name] = total * 3
+			idx := make([]int, len(menus))
+			for n := 0; n < total; n++ {
+				for mode := 0; mode < 3; mode++ {
+					sa.mode, sb.mode = mode, mode
+					ca, cb := base.WithEventManager(sdk.NewEventManager()), base.WithEventManager(sdk.NewEventManager())
+					argsA, argsB := make([]reflect.Value, len(menus)), make([]reflect.Value, len(menus))
+					for a := range menus {
+						if menus[a] == nil {
+							argsA[a], argsB[a] = reflect.ValueOf(ca), reflect.ValueOf(cb)
+						} else {
+							argsA[a], argsB[a] = menus[a][idx[a]], menus[a][idx[a]]
+						}
+					}
+					sa.calls, sb.calls = sa.calls[:0], sb.calls[:0]
+					ra := mm.Call(argsA)
+					rb := dm.Call(argsB)
+					rep.Count("evaluations", 1)
+					why := ""
+					if len(sa.calls) != 1 || len(sb.calls) != 1 || sa.calls[0] != sb.calls[0] {
+						why = fmt.Sprintf("wrapped application saw %v, expected %v", sa.calls, sb.calls)
+					}
+					for k := range ra {
+						if fmt.Sprintf("%#v", ra[k].Interface()) != fmt.Sprintf("%#v", rb[k].Interface()) && fmt.Sprint(ra[k].Interface()) != fmt.Sprint(rb[k].Interface()) {
+							why += fmt.Sprintf(" result #%d is %v, the wrapped application returned %v;", k, ra[k].Interface(), rb[k].Interface())
+						}
+					}
+					if ea, eb := fmt.Sprint(ca.EventManager().Events()), fmt.Sprint(cb.EventManager().Events()); ea != eb {
+						why += fmt.Sprintf(" events %s, expected %s;", trunc(ea, 200), trunc(eb, 200))
+					}
+					if why != "" {
+						var av []string
+						for a := range menus {
+							if menus[a] != nil {
+								av = append(av, trunc(fmt.Sprint(argsA[a].Interface()), 80))
+							}
+						}
+						rep.Violate(Violation{Kind: "callback-not-passed-through", Group: m.Name, Sig: fmt.Sprintf("%s#%d/mode%d", m.Name, n, mode), Replay: mustJSON(map[string]any{"callback": m.Name, "args": av, "inner_answer_mode": mode}),
+							What: fmt.Sprintf("%s%v (wrapped application answering in mode %d) is not a pass-through: %s", m.Name, av, mode, why)})
+					} else {
+						rep.Outcome("callback-passthrough-ok")
+						if n == 0 {
+							rep.Distinct(fmt.Sprintf("callback:%s/mode%d", m.Name, mode))
+						}
 					}
 				}
-				if !same {
-					rep.Violate(Violation{Kind: "callback-not-passed-through", Group: m.Name, Sig: fmt.Sprintf("%s#%d", m.Name, variant), Replay: mustJSON(m.Name),
-						What: fmt.Sprintf("%s is not a pass-through: inner saw %v, expected %v", m.Name, got, want)})
-				} else if variant == 0 {
-					rep.Outcome("callback-passthrough-ok")
-					rep.Distinct("callback:" + m.Name)
+				for a := len(idx) - 1; a >= 0; a-- { // odometer
+					if menus[a] == nil {
+						continue
+					}
+					idx[a]++
+					if idx[a] < len(menus[a]) {
+						break
+					}
+					idx[a] = 0
 				}
+			}
+			if after := w.StateKey(base); after != before {
+				rep.Violate(Violation{Kind: "callback-writes-state", Group: m.Name, Sig: m.Name, Replay: mustJSON(m.Name), What: fmt.Sprintf("%s wrote to the stores although the wrapped application wrote nothing: %v", m.Name, w.DiffStores(base, Branch(w.Ctx)))})
+				before = after
 			}
 		}
 	}
 	rep.Extra["callbacks_enumerated_by_reflection"] = covered
+	rep.Extra["callback_argument_combinations"] = sizes
 }
 
 // c07RefundPaths: acknowledgement / timeout of packets SENT by Noble, on the full stack vs the reference stack.
